@@ -188,6 +188,7 @@ def run(check, prog):
     # expansion can hold it (rule shared with C02)
     from . import c02 as _c02
     _c02.cluster_order_cap(check, prog)
+    _c02.series_exit(check, prog)       # one-sphere cluster = single-sphere solution
 
 
 def cluster(check, prog):
